@@ -90,7 +90,7 @@ def toIndexable (c : Cond) : Option IndexableCond :=
   else match c.val, c.fn with
     | .set _, .includes => none
     | .opt _, .includes => none
-    | .map m, .includes => some ⟨c.col, dedupKeys (keys m), c.val⟩
+    | .map m, .includes => if m.isEmpty then none else some ⟨c.col, dedupKeys (keys m), c.val⟩
     | v, _ => some ⟨c.col, [], v⟩
 where
   dedupKeys (l : List Atom) : List Atom := l.eraseDups
